@@ -4,7 +4,7 @@
    lengths, pixel scales over all rationals; shapes, offsets, oversampling over all integers in the
    stated ranges; masks over all boolean arrays.  [shift_of] is Field.shift (the tilt shift of a
    field, property C04): a wavefront "without tilt" is one whose fields it maps to (0, 0). *)
-From LV Require Import Model.Propagate Proofs.FieldP Proofs.PropagateP Lib.Instances.
+From LV Require Import Model.Propagate Proofs.FieldP Proofs.PropagateP Proofs.PropagateOutcomeP Proofs.PropagateInsertP Lib.Instances.
 
 (* Every sample (i, j) of Wavefront.field of the propagated wavefront, at plane coordinate
    (u, v) = (i - floor(S_r os / 2), j - floor(S_c os / 2)), is
@@ -201,3 +201,124 @@ Proof.
   eexists. eexists. split; [vm_compute; reflexivity|]. split; [vm_compute; reflexivity|].
   repeat split; vm_compute; reflexivity.
 Qed.
+
+(* ------------------------------------------------------------------------------------------------
+   Refusals (deepen).  The complete decision of the outcome of propagate_dft, for every wavefront
+   (fields with 0-d or 2-d data, pixelscale set or not), any per-field shifts and any mask:
+   - a wavefront of type none is refused first (TypeError);
+   - then a mask whose shape differs from shape*oversample in BOTH dimensions (ValueError; a mask wrong in
+     one dimension only is accepted by the code), then a mask without a sample > 0 (IndexError);
+   - then, field by field in order, only for fields whose chip (prop_shape*oversample box centred at
+     fix(shift)) meets the window: a wavefront without pixelscale (TypeError), then 0-d data (ValueError);
+   - in every other case the call succeeds; in particular fields that miss the window are skipped
+     silently, whatever they hold.  Nothing else is ever raised. *)
+Theorem C02_outcome_decided :
+  forall (S : Scalar) (sq : Qc -> S) (shift_of : field S -> Qc * Qc) (w : wavefront S) (dur duc : Qc)
+         (shape pshape : option (Z * Z)) (os : Z) (mask : option bmask) (Sr Sc Pr Pc : Z),
+  match shape with None => wshape w | Some s => s end = (Sr, Sc) ->
+  match pshape with None => (Sr, Sc) | Some p => p end = (Pr, Pc) ->
+  0 < Sr -> 0 < Sc -> 0 < Pr -> 0 < Pc -> 1 <= os ->
+  match propagate_dft sq shift_of w dur duc shape pshape os mask with
+  | Ok w' =>
+      wptype w <> PtNone /\
+      exists oe, out_extent (Sr * os) (Sc * os) mask = Ok oe /\
+        (forall m, mask = Some m -> (mnr m = Sr * os \/ mnc m = Sc * os) /\
+                                    exists i j, 0 <= i < mnr m /\ 0 <= j < mnc m /\ mget m i j = true) /\
+        (forall f, In f (wdata w) ->
+           intersect oe (array_extent (Pr * os) (Pc * os) (qfix (fst (shift_of f))) (qfix (snd (shift_of f)))) = true ->
+           wps w <> None /\ exists a, fd f = D2 a)
+  | Err e =>
+      (wptype w = PtNone /\ e = TypeError) \/
+      (wptype w <> PtNone /\ exists m, mask = Some m /\
+         ((mnr m <> Sr * os /\ mnc m <> Sc * os /\ e = ValueError) \/
+          ((mnr m = Sr * os \/ mnc m = Sc * os) /\ e = IndexError /\
+           forall i j, 0 <= i < mnr m -> 0 <= j < mnc m -> mget m i j = false))) \/
+      (wptype w <> PtNone /\ exists oe, out_extent (Sr * os) (Sc * os) mask = Ok oe /\
+         exists f, In f (wdata w) /\
+           intersect oe (array_extent (Pr * os) (Pc * os) (qfix (fst (shift_of f))) (qfix (snd (shift_of f)))) = true /\
+           ((wps w = None /\ e = TypeError) \/ (wps w <> None /\ e = ValueError /\ exists v, fd f = D0 v)))
+  end.
+Proof. exact propagate_dft_outcome. Qed.
+Print Assumptions C02_outcome_decided.
+
+(* non-vacuity: a wavefront WITHOUT pixelscale holding a 0-d field.  With a mask whose bounding box misses
+   the centred 2x2 propagation window the call succeeds (no field evaluated); without the mask it is
+   refused with TypeError; with a pixelscale, with ValueError; an all-zero mask gives IndexError and a
+   5x5 mask for the 6x6 output ValueError - each before the fields are looked at *)
+Example C02_outcome_nonvacuous :
+  let f0 := mkField (S := ZS) (D0 (2 : ZS)) 0 0 [] in
+  let w := mkWf (S := ZS) (Q2Qc (1 # 2)) None (Some (Q2Qc 1)) (1, 1) PtPupil [f0] in
+  let wp := mkWf (S := ZS) (Q2Qc (1 # 2)) (Some (Q2Qc (1 # 2), Q2Qc (1 # 2))) (Some (Q2Qc 1)) (1, 1) PtPupil [f0] in
+  let corner := Some (mkMask 6 6 (fun i j => (i =? 0) && (j =? 0))) in
+  let run := fun w m => propagate_dft (S := ZS) (fun _ => 1) no_shift w (Q2Qc (1 # 4)) (Q2Qc (1 # 4)) (Some (6, 6)) (Some (2, 2)) 1 m in
+  (exists w', run w corner = Ok w' /\ wdata w' = []) /\
+  run w None = Err TypeError /\ run wp None = Err ValueError /\
+  run wp (Some (mkMask 6 6 (fun _ _ => false))) = Err IndexError /\
+  run wp (Some (mkMask 5 5 (fun _ _ => true))) = Err ValueError.
+Proof. cbv zeta. split; [eexists; split; vm_compute; reflexivity|]. repeat split; vm_compute; reflexivity. Qed.
+
+(* ------------------------------------------------------------------------------------------------
+   Wavefront.insert (deepen).  For ANY collection of sized fields (any wavefront: pupil, image, segmented,
+   overlapping fields) and any caller array [out] of any positive shape and any weight, insert returns
+   out + weight * |field|^2, where field is the wavefront laid centre on centre over an array of out's shape
+   (Wavefront.field for that shape); overlapping fields add coherently, nothing outside is touched, the
+   shape of out is kept.  ([fextent] bounded by sys.maxsize as in lentil.field.boundary.) *)
+Theorem C02_wavefront_insert_adds_weighted_intensity :
+  forall (S : Scalar), is_ring S -> forall (fs : list (field S)) (out : arr S) (weight : S),
+  0 < nr out -> 0 < nc out ->
+  (forall f, In f fs -> (exists d, fd f = D2 d /\ 0 < nr d /\ 0 < nc d) /\
+                        (let '(a1, a2, a3, a4) := fextent f in
+                         - maxsize < a1 /\ a2 < maxsize /\ - maxsize < a3 /\ a4 < maxsize)) ->
+  exists o r, render fs (nr out) (nc out) = Ok o /\
+    accumulate fs out weight = Ok r /\ nr r = nr out /\ nc r = nc out /\
+    (forall i j, 0 <= i < nr out -> 0 <= j < nc out ->
+      get r i j = (get out i j + (get o i j * kconj (get o i j)) * weight)%K).
+Proof. exact wavefront_insert_explicit. Qed.
+Print Assumptions C02_wavefront_insert_adds_weighted_intensity.
+
+(* ... and in particular for the wavefront propagate_dft returns (its fields are sized and bounded) *)
+Theorem C02_insert_after_propagation :
+  forall (S : Scalar), is_ring S -> kernel_laws S -> forall (sq : Qc -> S)
+    (shift_of : field S -> Qc * Qc) (w : wavefront S) (dur duc : Qc) (shape pshape : option (Z * Z)) (os : Z)
+    (mask : option bmask) (dxr dxc : Qc) (Sr Sc Pr Pc : Z) (b : extent) (out : arr S) (weight : S),
+  wptype w <> PtNone -> wps w = Some (dxr, dxc) ->
+  (forall f, In f (wdata w) -> exists a, fd f = D2 a) ->
+  match shape with None => wshape w | Some s => s end = (Sr, Sc) ->
+  match pshape with None => (Sr, Sc) | Some p => p end = (Pr, Pc) ->
+  0 < Sr -> 0 < Sc -> 0 < Pr -> 0 < Pc -> 1 <= os -> Sr * os < maxsize -> Sc * os < maxsize ->
+  (forall m, mask = Some m -> mnr m = Sr * os /\ mnc m = Sc * os) ->
+  mask_bbox mask (Sr * os) (Sc * os) = Ok b ->
+  0 < nr out -> 0 < nc out ->
+  exists w' o r, propagate_dft sq shift_of w dur duc shape pshape os mask = Ok w' /\
+    render (wdata w') (nr out) (nc out) = Ok o /\
+    winsert w' out weight = Ok r /\ nr r = nr out /\ nc r = nc out /\
+    (forall i j, 0 <= i < nr out -> 0 <= j < nc out ->
+      get r i j = (get out i j + (get o i j * kconj (get o i j)) * weight)%K).
+Proof. exact propagate_dft_insert. Qed.
+Print Assumptions C02_insert_after_propagation.
+
+(* non-vacuity: two overlapping fields inserted with weight 3 into a 3x5 array of sevens: where both fields
+   lie the sum is squared (coherent), where only one lies its square, elsewhere out is unchanged *)
+Example C02_insert_nonvacuous :
+  let fs := [mkField (S := ZS) (D2 (mkArr (S := ZS) 1 2 (fun _ j => 1 + j))) 0 0 [];
+             mkField (S := ZS) (D2 (mkArr (S := ZS) 1 1 (fun _ _ => 5))) 0 0 []] in
+  let out := mkArr (S := ZS) 3 5 (fun _ _ => 7) in
+  (forall f, In f fs -> (exists d, fd f = D2 d /\ 0 < nr d /\ 0 < nc d) /\
+                        (let '(a1, a2, a3, a4) := fextent f in
+                         - maxsize < a1 /\ a2 < maxsize /\ - maxsize < a3 /\ a4 < maxsize)) /\
+  exists r, accumulate fs out 3 = Ok r /\ get r 1 1 = 7 + 1 * 3 /\ get r 1 2 = 7 + (2 + 5) * (2 + 5) * 3 /\
+            get r 1 3 = 7 /\ get r 0 2 = 7.
+Proof.
+  cbv zeta. split.
+  { intros f [<-|[<-|[]]]; (split; [eexists; split; [reflexivity|split; reflexivity]|vm_compute; repeat split; reflexivity]). }
+  eexists. split; [vm_compute; reflexivity|]. repeat split; vm_compute; reflexivity.
+Qed.
+
+(* the focal length of the result: copied, except that 0 is replaced by infinity (None) by
+   Wavefront.__init__ ("focal_length if focal_length else np.inf") *)
+Theorem C02_focal_length_rule :
+  forall (S : Scalar) (sq : Qc -> S) (shift_of : field S -> Qc * Qc) (w w' : wavefront S) dur duc shape pshape os mask,
+  propagate_dft sq shift_of w dur duc shape pshape os mask = Ok w' ->
+  wfocal w' = match wfocal w with Some z => if Qc_eq_bool z 0%Qc then None else Some z | None => None end.
+Proof. exact propagate_focal_rule. Qed.
+Print Assumptions C02_focal_length_rule.
